@@ -42,7 +42,18 @@ CHECKS["C19"] = _c("format-call lint + per-arm must-call + module-forwarding rul
 CHECKS["C21"] = _c("global-write, lockset, shared-parameter store and append-ownership lints",
     "Decides absence of unsynchronised shared writes in ygot's own code: globals only under never-written debug flags, regexp cache maps under their paired mutex, no stores through shared inputs, no appends onto unowned slices, gated retrieveNode writes.")
 
-for _p in ["C15","C17","C20","C22","C24","C25","C26","C27","C28","C29","C30","C31","C32","C33","C34"]:
+CHECKS["C17"] = _c("guard analysis of enumFieldToString/castToEnumValue + map-range single-result lint",
+    "Decides that the library's enum name<->value helpers treat exactly 0 as unset, return names only after successful ΛMap lookups, error on unknown values, use the type's own ΛMap with no package state and compare names modulo module prefix on both sides.")
+CHECKS["C20"] = _c("panic-class lints over the static call closure of the nine entry points (unchecked type assertions, uncomparable interface ==, reflective call arity, explicit panic)",
+    "Decides absence of three syntactically visible panic classes in everything statically reachable from the listed entry points; index bounds, nil dereferences and panics inside reflect are not decided.")
+CHECKS["C30"] = _c("error-drop discipline, match-result guards, lock-step cursor rule and partial-key guard (lexical dominance over AST + go/types)",
+    "Decides that leafref errors are dropped only under IgnoreMissingData, that the iterator returns every helper error, that matchesNodes reports a match only after an equality test (or for an empty source), that dataNodesAtPath moves its data and memo cursors together and caches under the looked-up path, and that a missing key is tolerated only when absent.")
+CHECKS["C31"] = _c("guard/order analysis of unmarshalStruct, unmarshalLeafList, unmarshalList + option-forwarding lint",
+    "Decides that existing fields are never re-created, only mentioned fields are entered, a mentioned leaf-list is cleared before filling on every successful path, keyed-list elements merge into existing entries, the unknown-member check is governed exactly by IgnoreExtraFields, and options reach every nested call.")
+CHECKS["C32"] = _c("guard analysis of the PruneConfigFalse iterator (write gated by !IsConfig, whitelisted skip predicates, unconditional walk)",
+    "Decides that PruneConfigFalse always walks the given struct with the given schema, writes only zero values into fields whose schema IsConfig reports false, skips fields only for the documented reasons, and that IsConfig is goyang's inherited config decision.")
+
+for _p in ["C15","C22","C24","C25","C26","C27","C28","C29","C33","C34"]:
     NA[_p] = NOT_YET
 NA["C10"] = "quantifies over runtime trees, paths and payloads; its structural clauses (key and value tables) are decided under C16/C18 and the frame clause has no static handle here (DESIGN.md §7)"
 NA["C23"] = "classification of runtime leaves after single-leaf edits; no clause visible in code shape beyond those claimed under C22 (DESIGN.md §7)"
